@@ -91,6 +91,41 @@ def src_interp(n, idx, op, elem="int", built="literal"):
             "fn main() -> int { return 0 }\nshadow main { assert (== 1 1) }\n" % (decl, acc, lit(idx)))
 
 
+ELEMS = {"int": ("int", lambda i: str(1000 + i)), "float": ("float", lambda i: "%d.5" % i), "bool": ("bool", lambda i: "true"),
+         "string": ("string", lambda i: '"s%d"' % i), "struct": ("Pt", lambda i: "Pt { v: %d }" % (1000 + i)),
+         "nested": ("array<int>", lambda i: "[%d, %d]" % (i, i + 1))}
+
+
+def src_kind(elem, op, idx, n=2):
+    """whole program, element kind x operation: typed access, access whose result is discarded (expression
+    statement), store, removal, pop on an empty array"""
+    ty, val = ELEMS[elem]
+    if op == "pop":
+        decl = "    let mut a: array<%s> = []\n" % ty
+    elif elem in ("struct", "nested"):      # literals of these kinds do not compile natively (F-C04-10)
+        decl = "    let mut a: array<%s> = []\n" % ty + "".join("    set a (array_push a %s)\n" % val(i) for i in range(n))
+    else:
+        decl = "    let mut a: array<%s> = [%s]\n" % (ty, ", ".join(val(i) for i in range(n)))
+    acc = {"get": "    let x: %s = (at a %s)\n" % (ty, lit(idx)),
+           "get-discarded": "    (at a %s)\n" % lit(idx),
+           "set": "    (array_set a %s %s)\n" % (lit(idx), val(7)),
+           "remove": "    set a (array_remove_at a %s)\n" % lit(idx),
+           "pop": "    let x: %s = (array_pop a)\n" % ty}[op]
+    return ("struct Pt { v: int }\nfn main() -> int {\n" + decl + '    (println "before")\n' + acc +
+            '    (println (array_length a))\n    (println "after")\n    return 0\n}\nshadow main { assert (== 1 1) }\n')
+
+
+def run_vm_src(args):
+    tdir, td, k, src = args
+    p = os.path.join(td, "v%d.nano" % k)
+    open(p, "w").write(src)
+    try:
+        r = subprocess.run([os.path.join(tdir, "bin", "nano_virt"), p, "--run"], cwd=tdir, stdout=subprocess.PIPE, stderr=subprocess.PIPE, timeout=20)
+    except subprocess.TimeoutExpired:
+        return ("run-timeout", b"", b"", None)
+    return (r.returncode, r.stdout, r.stderr[-300:], None)
+
+
 def run_native(args):
     tdir, td, k, src, mode = args
     p = os.path.join(td, "p%d.nano" % k)
@@ -170,18 +205,34 @@ def run(ctx):
                 continue      # the interpreter does not support struct array literals at all (recorded under C03)
             for idx in ((2, 1) if quick else (-1, 0, 1, 2, 3, 2**32)):
                 progs.append(("interp", 2, idx, "get", src_interp(2, idx, "get", elem, built)))
+    # every element kind x operation (typed access, access whose value is discarded, store, removal, pop on empty),
+    # natively compiled and on the VM from source
+    for elem in ELEMS:
+        for op in ("get", "get-discarded", "set", "remove", "pop"):
+            for idx in ((2,) if quick else (2, -1, 3, 2**32)):
+                if op == "pop" and idx != 2:
+                    continue
+                for mode in ("native", "vmsrc"):
+                    progs.append((mode, 2, idx, op + "/" + elem, src_kind(elem, op, idx)))
+            if not quick or elem in ("int", "nested"):
+                for mode in ("native", "vmsrc"):
+                    if op != "pop":
+                        progs.append((mode, 2, 1, op + "/" + elem, src_kind(elem, op, 1)))
     with tempfile.TemporaryDirectory(prefix="nvc08", dir="/var/tmp") as td:
         with ThreadPoolExecutor(16) as ex:
-            res = list(ex.map(run_native, [(tdir, td, k, p[4], p[0]) for k, p in enumerate(progs)]))
+            res = list(ex.map(lambda kp: run_vm_src((tdir, td, kp[0], kp[1][4])) if kp[1][0] == "vmsrc" else run_native((tdir, td, kp[0], kp[1][4], kp[1][0])), enumerate(progs)))
     for (mode, n, idx, op, src), (rc, out, err, exe) in zip(progs, res):
         lab = "%s:%s len=%d idx=%d" % (mode, op, n, idx)
         ctx.case(lab)
-        inr = (0 <= idx < n) if op != "pop" else n > 0
+        inr = (0 <= idx < n) if not op.startswith("pop") else (n > 0 and "/" not in op)
         text = out.decode(errors="replace")
-        if mode == "native":
+        if mode in ("native", "vmsrc"):
             ok = (rc == 0 and "after" in text) if inr else (isinstance(rc, int) and rc != 0 and "after" not in text)
         else:
             ok = (rc == 0 and "after" in text) if inr else (isinstance(rc, int) and rc != 0 and "after" not in text and not exe)
+        if rc == "compile-failed" and "/" in op:
+            ctx.count("kind_family_not_compiled_natively")      # an accepted program that does not compile is C04's subject
+            continue
         if not ok:
             fid = "F-C08-3"
             if mode == "native" and op == "pop" and not inr and fid in ctx.findings and ctx.findings[fid]["status"] == "known" and rc == 0:
@@ -196,7 +247,7 @@ def run(ctx):
     ctx.sample(cases[5][0]); ctx.sample(cases[-1][0]); ctx.sample({"theorems": info.get("theorems", [])})
     ctx.cov["rule"] = ("NanoVM: every array length in the list x 19 boundary indices (negative, len, len+1, 2^31, 2^32+k, INT64_MIN/MAX) x get/set/remove, pop, tuple/struct/union field; "
                        "model and implementation compared, implementation oracle: in range => that element and the run continues, else VM_ERR_OUT_OF_BOUNDS and nothing printed after the access; "
-                       "native binaries and the compile-time interpreter on whole programs; distinct by case label")
+                       "native binaries and the compile-time interpreter on whole programs; element kind (int, float, bool, string, struct, nested array) x (typed access, discarded access, store, removal, pop on empty) natively and on the VM from source; distinct by case label")
     for f in oracle_fail[:3]:
         ctx.violation({"kind": "oracle", "detail": f})
     if not oracle_fail:
